@@ -103,6 +103,79 @@ pub fn canary_check(r: &mut OneResult) {
     }
 }
 
+// ---------------------------------------------------------------------------
+// thread teardown: the library called from the destructor of a caller's
+// thread-local, while the thread's locals are being destroyed (a crash-point-like
+// phase of a thread's life: whatever per-thread state the library keeps may be
+// gone already).  Two guards, one registered before and one after the thread's
+// first use of the library, so that at least one of them runs after the library's
+// own thread-locals (if any) have been destroyed, whatever the order.
+
+static TEARDOWN_RESULTS: std::sync::Mutex<Vec<(String, Option<String>)>> = std::sync::Mutex::new(Vec::new());
+
+struct TeardownGuard {
+    armed: std::cell::RefCell<Option<(String, Vec<Outcome>)>>,
+}
+impl Drop for TeardownGuard {
+    fn drop(&mut self) {
+        if let Some((label, expected)) = self.armed.borrow_mut().take() {
+            let r = std::panic::catch_unwind(canary);
+            let verdict = match r {
+                Err(p) => Some(format!(
+                    "panicked: {}",
+                    p.downcast_ref::<String>().cloned().or_else(|| p.downcast_ref::<&str>().map(|s| s.to_string())).unwrap_or_default()
+                )),
+                Ok(now) => (0..expected.len().max(now.len()))
+                    .find(|&i| match (expected.get(i), now.get(i)) {
+                        (Some(a), Some(b)) => !a.same(b),
+                        _ => true,
+                    })
+                    .map(|i| {
+                        format!(
+                            "canary operation {}: {} on the live thread, {} during teardown",
+                            i,
+                            expected.get(i).map(|o| o.short()).unwrap_or_default(),
+                            now.get(i).map(|o| o.short()).unwrap_or_default()
+                        )
+                    }),
+            };
+            if let Ok(mut g) = TEARDOWN_RESULTS.lock() {
+                g.push((label, verdict));
+            }
+        }
+    }
+}
+thread_local! {
+    static GUARD_BEFORE: TeardownGuard = const { TeardownGuard { armed: std::cell::RefCell::new(None) } };
+    static GUARD_AFTER: TeardownGuard = const { TeardownGuard { armed: std::cell::RefCell::new(None) } };
+}
+
+pub fn teardown_check(r: &mut OneResult) {
+    r.add("thread_teardown_checks", 1);
+    TEARDOWN_RESULTS.lock().unwrap().clear();
+    let h = std::thread::spawn(|| {
+        GUARD_BEFORE.with(|_| ());
+        let live = canary();
+        GUARD_BEFORE.with(|g| *g.armed.borrow_mut() = Some(("guard registered before the first library call".into(), live.clone())));
+        GUARD_AFTER.with(|g| *g.armed.borrow_mut() = Some(("guard registered after the first library call".into(), live)));
+    });
+    let _ = h.join();
+    let res = std::mem::take(&mut *TEARDOWN_RESULTS.lock().unwrap());
+    r.add("library_calls_batches_made_during_thread_teardown", res.len() as u64);
+    for (label, verdict) in res {
+        if let Some(v) = verdict {
+            r.found.push(Found {
+                class: "panics-or-differs-during-thread-teardown".into(),
+                key: "teardown".into(),
+                detail: json!({"guard": label, "what": v,
+                    "note": "the fixed canary calls (build, sample, getters, image) made from the destructor of a caller's thread-local while the thread exits"}),
+                case: json!({"kind": "teardown"}),
+            });
+            break;
+        }
+    }
+}
+
 /// which violation classes belong to which property
 pub fn class_property(class: &str) -> &'static str {
     match class {
@@ -271,10 +344,18 @@ impl Property for ScenarioProp {
         let mut r = self.filter(r);
         if self.flavor == Flavor::C17 {
             canary_check(&mut r);
+            if index % 512 == 5 {
+                teardown_check(&mut r);
+            }
         }
         r
     }
     fn replay(&self, case: &Value) -> OneResult {
+        if case["kind"] == "teardown" {
+            let mut r = OneResult::default();
+            teardown_check(&mut r);
+            return r;
+        }
         if case["kind"] == "canary" {
             // needs the history of its worker process: only the prefix replay can show it
             return OneResult::default();
